@@ -274,6 +274,11 @@ def bounded(run):
     run.worker_errors(errs, len(jobs))
     ev = sum(r["evaluations"] for r in res if r and "_error" not in r)
     fails = [f for r in res if r and "_error" not in r for f in r["failures"]]
+    for f in [f for f in fails if f.get("known")]:
+        kf = [k for k in run.known if k.get("bounded") == f["known"]]
+        if kf:
+            run.known_hits.append((kf[0], f["what"][:160]))
+            fails.remove(f)
     run.bounded_result("real M-index on generated textures: range, grain-order invariance, frame and two-fold invariance where the pinned tree has them, single-orientation and uniform limits, theoretical density integral, no dependence on call history, batched variant with real pools (1..16 workers)",
                        "pydrex.diagnostics.misorientation_index", f"{ev} (system, texture) cases", ev, fails, ev)
     # recorded known findings: fixed witnesses, re-measured
@@ -363,6 +368,11 @@ def nat_sweep(seed, count):
         msgs = []
         try:
             m = float(D.misorientation_index(O, s))
+            if np.isnan(m) and name in ("tetragonal", "hexagonal") and np.all(np.isnan(st.misorientation_hist(O, s)[0])):
+                # recorded finding (input class): every computed misorientation angle exceeds theta_max, the histogram is empty
+                fails.append(dict(case=f"{seed}.{it}", checker="contracts.C14:nat_case", inputs=dict(seed=int(seed), it=it, count=count), known="mindex-empty-histogram",
+                                  what=f"{name}: all misorientation angles of a {n}-grain texture exceed theta_max, the histogram is empty and the M-index is NaN"))
+                continue
             if not (-1e-9 <= m <= 1 + 1e-3):
                 msgs.append(f"{name}: M-index {m:.4f} outside [0, 1]")
             perm = rng.permutation(n)
